@@ -670,3 +670,14 @@ def update_passes(F):
         if any(c.callee and c.callee.best in (RELOAD, TOPO) for u in [v] + [x for x in F.unit(b) if x is not b] for c in u.calls()):
             out[b.path] = v
     return out
+
+
+def base_path(b, op, at=None, depth=0):
+    """deep path of a value with the std view-changing calls peeled off (deref / deref_mut / as_ref / as_mut / iter ..):
+    `(*map).insert(..)` and `map.contains_key(..)` have the same base"""
+    ap = strip_refs(deep_path(b, op, at=at))
+    if ap and ap[0].startswith('call@bb') and depth < 5:
+        site = [c for c in b.calls() if 'call@bb%d' % c.bb == ap[0]]
+        if site and site[0].callee and site[0].callee.name in ('deref', 'deref_mut', 'as_ref', 'as_mut', 'borrow', 'borrow_mut', 'iter', 'into_iter', 'iter_mut') and site[0].args:
+            return base_path(b, site[0].args[0], at=site[0].bb, depth=depth + 1)
+    return ap
